@@ -256,9 +256,33 @@ type srvRig struct {
 	done chan error
 }
 
+// a pre-call plugin that refuses the requests whose arguments say so (Mode "veto"): the request is answered with the
+// plugin's error, no handler runs.  It hands the arguments back or not, by the parity of the request id.
+const srvVetoText = "refused by the pre-call plugin"
+
+type vetoPlugin struct{}
+
+func (vetoPlugin) PreCall(ctx context.Context, serviceName, methodName string, args interface{}) (interface{}, error) {
+	mode, id := "", 0
+	switch a := args.(type) {
+	case *SArgs:
+		mode, id = a.Mode, a.Id
+	case *PArgs:
+		mode, id = a.Mode, a.Id
+	}
+	if mode == "veto" {
+		if id%2 == 0 {
+			return args, errors.New(srvVetoText)
+		}
+		return nil, errors.New(srvVetoText)
+	}
+	return args, nil
+}
+
 func newSrvRig(gated bool, opts ...server.OptionFn) *srvRig {
 	r := &srvRig{ln: newPipeListener(), h: newHandlerEnv(gated), done: make(chan error, 1)}
 	r.srv = server.NewServer(opts...)
+	r.srv.Plugins.Add(vetoPlugin{})
 	r.srv.RegisterName("Arith", &Arith{h: r.h}, "")
 	r.srv.RegisterName("ArithP", &ArithP{h: r.h}, "")
 	r.srv.RegisterFunctionName("Fn", "mul", func(ctx context.Context, a *SArgs, rep *SReply) error {
@@ -433,6 +457,8 @@ func errKind(v respView, texts []string) string {
 		return -1
 	}
 	switch {
+	case t == srvVetoText:
+		return "text:901"
 	case strings.HasPrefix(t, "rpcx: can't find service "):
 		return "nosvc"
 	case strings.HasPrefix(t, "rpcx: can't find method "):
